@@ -76,6 +76,7 @@ static int tasks_ran_this_round;
 static struct ktime last_reading;
 static int have_reading;
 static int main_tid;
+static int in_probe;		/* inside iv_fd_register_try: the poll methods probe the descriptor with poll() */
 
 static void h_in(void *c);
 static void h_out(void *c);
@@ -185,7 +186,9 @@ static void op_fd_register(struct fdrec *r, int pattern, int try)
 				}
 			}
 		}
+		in_probe = 1;
 		ret = iv_fd_register_try(fd);
+		in_probe = 0;
 		k_epoll_ctl_fail_fd = -1;
 		if (fail) {
 			sx_assert(ret != 0, "C07.register_try-reported-success-on-failure");
@@ -255,9 +258,19 @@ static void op_timer_register(struct tmrec *r)
 
 	memset(t, 0xAA, sizeof(*t));
 	IV_TIMER_INIT(t);
-	if (P_symtime) {
+	if (P_symtime == 1) {
 		r->esec = sx_long("expiry.sec", 0, (1L << 31) - 1);
 		r->ensec = sx_long("expiry.nsec", 0, 999999999);
+	} else if (P_symtime == 2) {
+		/* same second as the clock (or the zero instant): sub-second arithmetic and ms rounding */
+		r->esec = sx_choose(2) ? 0 : k_now.sec;
+		r->ensec = r->esec ? sx_long("expiry.nsec", 0, 999999999) : 0;
+	} else if (P_symtime == 3) {
+		r->esec = sx_long("expiry.sec", 0, (1L << 31) - 1);
+		r->ensec = 0;
+	} else if (P_symtime == 4) {
+		r->esec = 0;		/* already in the past: all timers due in the same iteration */
+		r->ensec = r->id;
 	} else {
 		r->esec = k_now.sec + r->id;
 		r->ensec = 0;
@@ -542,6 +555,8 @@ static void wait_entry(struct kwait_info *wi)
 	int i, b, anytask = 0, armed;
 	struct ktime A;
 
+	if (in_probe)
+		return;
 	end_of_iteration_oracles();
 	nwaits++;
 	task_round++;
@@ -635,6 +650,8 @@ static void wait_return(struct kwait_info *wi, int nready)
 	int i, j;
 	struct ktruth t;
 
+	if (in_probe)
+		return;
 	/* what did the kernel report for each harness descriptor? */
 	for (i = 0; i < nK; i++) {
 		struct fdrec *r = &F[i];
@@ -672,6 +689,8 @@ static int idle(struct kwait_info *wi)
 {
 	struct ktime A;
 
+	if (in_probe)
+		return 0;
 	if (!wi->has_timeout && !timerfd_armed_for(wi, &A)) {
 		sx_cover("loop.sleeps-with-nothing-ready");
 		sx_end();
@@ -752,7 +771,7 @@ void sx_main(void)
 		F[i].kfd = k_new_generic();
 		if (!P_symtruth) {
 			kfds[F[i].kfd].rd = 1;
-			kfds[F[i].kfd].wr = 0;
+			kfds[F[i].kfd].wr = (int)sx_opt("wr", 0);
 		}
 	}
 	for (i = 0; i < nT; i++)
